@@ -388,6 +388,9 @@ def run_flavour(ctx, rng, files, flavour, matrix):
                     spellings = list(SPELLINGS) + (["alias"] if tv[0] in ALIASES else [])
                 elif form == "file@1":
                     spellings = ["full", rng.choice(SPELLINGS[1:])]
+                elif form in ("next-line", "next-line-trailing", "block"):
+                    # the bare spelling is where a directive is told from its longer-named siblings by text alone: always drawn
+                    spellings = ["full", "bare"]
                 if form == "linter-ignore" and c not in LINTER_IGNORE_DOCUMENTED:
                     continue
                 if form in ("thailintignore", "config-ignore", "linter-ignore"):
